@@ -492,8 +492,16 @@ def _layout_subtrees(
                     left_info["size"].w + subtree_spacing,
                     subtree_span - right_info["size"].h,
                 )
+                # Center the trunk between the trunks of the two subtrees
                 trunk_pos = Position(
-                    left_info["size"].w + (subtree_spacing - trunk_width) / 2,
+                    left_info["size"].w
+                    + (
+                        subtree_spacing
+                        + right_trunk_dist
+                        - left_trunk_dist
+                        - trunk_width
+                    )
+                    / 2,
                     0,
                 )
             else:
@@ -516,9 +524,17 @@ def _layout_subtrees(
                     subtree_span - right_info["size"].w,
                     left_info["size"].h + subtree_spacing,
                 )
+                # Center the trunk between the trunks of the two subtrees
                 trunk_pos = Position(
                     0,
-                    left_info["size"].h + (subtree_spacing - trunk_height) / 2,
+                    left_info["size"].h
+                    + (
+                        subtree_spacing
+                        + right_trunk_dist
+                        - left_trunk_dist
+                        - trunk_height
+                    )
+                    / 2,
                 )
 
             state["trunk"] = Rect.make_from(trunk_pos, trunk_size)
